@@ -1,8 +1,10 @@
 """C08 — see DESIGN.md §4."""
 from ..spec import run_specs
+from ..ranges_guard import run_D8
 
 EXPLANATION = 'Per DW_RLE/DW_LLE kind: the raw entry decoders consume the standard operand kinds; convert_raw per-variant call sets equal the reviewed table; the only Ok(Some(range)) return of both convert_raw functions is dominated by the emptiness/tombstone guard. Resolved values are NOT decided.'
 
 
 def run(rep, ctx):
     run_specs(rep, ctx, 'C08')
+    run_D8(rep, ctx.g)
